@@ -322,7 +322,7 @@ pub fn emit_vis(sh: &mut Shards, st: &mut Stats, c: &Case17Vis, tag: &str) {
             let rules = rules_for_stats(e);
             let mut empty = 0usize;
             for v in &c.recs {
-                max_hits = max_hits.max(count_hits(&rules, &v.payee, v.category.as_deref().unwrap_or(""), "", true, &mut empty));
+                max_hits = max_hits.max(count_hits(&rules, &v.payee, v.category.as_deref().unwrap_or(""), "", true, &mut empty, &mut [0, 0]));
             }
             run_import_fmt(&text, okane::import::Format::Viseca, e)
         }
